@@ -293,6 +293,12 @@ def f_rtf_many_trowd(n):
     return "rtf", d, len(d)
 
 
+def f_rtf_many_trowd_one_row(n):
+    # n row definitions (\\trowd) in front of a single \\row: one table row, whatever n is
+    d = b"{\\rtf1\\ansi " + b"\\trowd " * n + b"\\cellx1000 a\\cell\\row\n}"
+    return "rtf", d, len(d)
+
+
 def f_rtf_deep_groups(n):
     d = b"{\\rtf1\\ansi " + b"{" * n + b"x" + b"}" * n + b"}"
     return "rtf", d, len(d)
@@ -624,6 +630,7 @@ FAMILIES = {
     "html-many-tables": (f_html_many_tables, [1_000, 4_000, 16_000], "size"),
     "rtf-unclosed-header-groups": (f_rtf_unclosed_header_groups, [1_000, 2_000, 4_000, 8_000], "size"),
     "rtf-many-table-rows": (f_rtf_many_trowd, [750, 3_000, 12_000], "size"),
+    "rtf-many-trowd-one-row": (f_rtf_many_trowd_one_row, [500, 1_000, 2_000], "size"),
     "rtf-deep-groups": (f_rtf_deep_groups, [5_000, 10_000, 20_000, 40_000], "size"),
     "rtf-fonttbl-newline-run": (f_rtf_fonttbl_newlines, [2_500, 5_000, 10_000, 20_000], "size"),
     "mbox-many-messages": (f_mbox_many_messages, [1_000, 4_000, 16_000], "size"),
